@@ -1,5 +1,6 @@
 import LLRP.Oracle.Common
 import LLRP.Oracle.C19
+import LLRP.Oracle.C20
 /-!
 `oracle`: line-protocol driver of the executable models (one request per line on stdin, one reply per line on
 stdout). Imports only `LLRP.Model.*`, `LLRP.Gen.*` and `LLRP.Oracle.*` (never Mathlib, never proofs) so that it
@@ -9,7 +10,8 @@ To add a property: write `LLRP/Oracle/Cxx.lean` with `def handleCxx : Handler`, 
 open LLRP LLRP.Oracle
 
 def handlers : List Handler := [
-  handleC19
+  handleC19,
+  handleC20
 ]
 
 def handle (line : String) : String :=
